@@ -59,6 +59,7 @@ PROPS["C06"] = {
              "enableCMT / enableMBM, only one schema; additional gid 5 / 0 / 2^32-1; mount type tmpfs / bind / blank / none; hostPath other than, "
              "equal to the path, relative). Oracle: model.RequiredVersion (max over the introduction versions of the statement) and 'released and >= "
              "minimum'; metamorphic: device permutations give the same minimum; ReadSpec on a file agrees (1/16..1/64 of cases). "
+             "One case in four (rapid) or five (exhaustive) adds present-but-empty maps and lists wherever a feature is NOT used: they must not count. "
              "Non-trivial iff >= 2 devices and a feature sits in a device that is not last in the order; distinct = distinct (placement, order, declared)."),
     "exhaustive_part": "all 2^7 feature subsets x all single placements for 1..3 devices x all device orders x all 7 released versions",
     "assumptions": ["introduction versions as listed in the statement / SPEC.md table", "a leading 'v' in the declared version is a don't-care and not generated"],
@@ -87,7 +88,8 @@ PROPS["C05"] = {
              "Each document is encoded as JSON and as block YAML (harness emitter, verified to decode back to the same tree) and put "
              "through three admission routes: ReadSpec, a cache over a directory holding only that file (Refresh error, GetErrors key, "
              "devices listed) and WriteSpec of the decoded struct when representable. Expected verdict is known by construction. "
-             "The table unit enumerates every defect kind at every position on one fixed three-device document. Non-trivial iff the "
+             "The table unit enumerates every defect kind at every position on one fixed three-device document. Permission defects are placed on nodes of every type (c, b, u, p, untyped); RDT class id defects at the first, a middle and the last position. "
+             "Non-trivial iff the "
              "document has >= 2 devices and the defect (or, for valid documents, the version-gating feature) is in a device that is not "
              "last; distinct = distinct document trees."),
     "exhaustive_part": "the defect-kind x position table on the fixed rich document (table unit) is enumerated completely; the rapid unit samples",
@@ -158,6 +160,7 @@ PROPS["C09"] = {
              "name in one directory, in both encodings: whatever is published in the end must read back as exactly one of the two Specs. "
              "large unit: three (thorough: six) Specs of 1.1 .. 3 MiB written form (5000 or 12000 devices; 6 or 12 devices with annotations of "
              "200 .. 250 KiB; annotation values of control characters or line breaks) through the same round trip. "
+             "One Spec in sixteen has a device whose edits are present-but-empty lists only: refused for writing or read back, never written and then unreadable. "
              "Non-trivial iff some string is outside [A-Za-z0-9_./=-]* or an integer extreme is present; distinct = distinct Specs."),
     "assumptions": ["strings are valid UTF-8 (the statement's domain)", "canonical image = encoding/json of specs.Spec (nil and empty lists equal)"],
     "manifest": {
@@ -189,7 +192,8 @@ PROPS["C01"] = {
              "cache (manual unit) or polling of the query API for at most 10 s (auto unit: put by rename and remove only). Oracle after "
              "every step: layout.Resolve (last-listed directory defining the name must define it in exactly one valid file) against "
              "ListDevices, GetDevice for all 18 names of the pools (path, priority, definition, Spec), ListVendors, ListClasses, "
-             "GetVendorSpecs, and no GetErrors key for a valid conflict-free file. One case = one step. Non-trivial iff >= 2 slots and some "
+             "GetVendorSpecs, and no GetErrors key for a valid conflict-free file. One case = one step. Layouts may hold an exact copy of a valid file under another Spec name, named pipes and sockets, symbolic links to Spec files. "
+             "Non-trivial iff >= 2 slots and some "
              "name defined by >= 2 valid files; distinct = distinct layout states."),
     "assumptions": ["valid Spec files may be symbolic links to regular files (inside or outside the directory; added after seeded change C01-3); symlinked directories and a configured 'directory' that is a regular file named *.json are not generated (stated don't-cares)",
                     "with a directory listed twice, whether GetVendorSpecs lists its Specs once or twice is not fixed by the statement (compared as a set)"],
@@ -256,6 +260,7 @@ PROPS["C02"] = {
              "InjectDevices on another copy; and the result must contain no token of a non-requested device, a shadowed file, an ignored "
              "or uninvolved file; the same cache is then used for the same request again and for a one-device request. The cache is a manual one, or "
              "(one case in four) an auto-refresh cache created during a descriptor shortage, which has no watcher and rescans on every lookup. "
+             "Devices and Spec files also share container paths, variable names (some a prefix of another, some values with empty lines) and node paths, so that later edits replace earlier ones and positions matter. "
              "Non-trivial iff devices of one file are interleaved with a device of another file in the request, or a "
              "requested name is also defined in a shadowed (lower-priority) file; distinct = distinct (layout, request, OCI spec)."),
     "assumptions": ["ContainerEdits.Apply itself is judged by C03; C02 is defined relative to applying the combined list",
@@ -281,7 +286,8 @@ PROPS["C04"] = {
              "cache was populated and no Refresh() follows. Oracle: U = the subsequence of the request that layout.Resolve does not resolve; if U is "
              "non-empty the call returns exactly U (order, multiplicity) and an error and the OCI spec's JSON image equals that of the "
              "copy taken before; if U is empty it returns (nil, nil); nil spec: whole request and an error; in the stale variant the answer must be the one for the content before OR the one "
-             "for the content after the change, never a mixture. Non-trivial iff the request "
+             "for the content after the change, never a mixture. The request may be empty; one case in four uses an auto-refresh cache without a watcher, for which the injection itself is the refreshing call. "
+             "Non-trivial iff the request "
              "mixes >= 1 resolvable and >= 1 unresolvable name on a populated OCI spec; distinct = distinct (layout, request)."),
     "assumptions": ["unmodified is judged on the JSON image and on reflect.DeepEqual of JSON clones"],
     "manifest": {
@@ -363,7 +369,8 @@ PROPS["C16"] = {
              "reads back equal; on failure (only NUL / over-long names may fail) nothing but created directories and a *.tmp file changed; "
              "(3) after Refresh every device resolves to the target with priority len(dirs)-1 unless another file of the last directory "
              "defines it (then it must not resolve); (4) RemoveSpec(name) deletes exactly the target, and removing again or removing a "
-             "never-written name succeeds and changes nothing. Non-trivial iff the id contains '/' or '.', the class ends in a Spec extension, "
+             "never-written name succeeds and changes nothing. The last directory may also hold a subdirectory with a Spec defining the same devices. "
+             "Non-trivial iff the id contains '/' or '.', the class ends in a Spec extension, "
              "the last directory was missing, or pre-existing content is present; distinct = distinct cases."),
     "assumptions": ["WriteSpec may only fail for names containing NUL or longer than 255 bytes"],
     "manifest": {
@@ -391,7 +398,8 @@ PROPS["C14"] = {
              "device (GetDevice, Spec.GetDevice) equals the file content it was generated from; (2) twin and repeated injections with "
              "unchanged host give equal results; (3) every injection satisfies the C03 predicate evaluated on the pristine edits against the "
              "*current* host nodes (so attributes left unspecified follow a host change); (4) write-back succeeds and reads back equal to "
-             "the original file. One case = one history (~30 steps; counter 'steps'). Non-trivial iff >= 2 injections with a host change in "
+             "the original file. One case = one history (~30 steps; counter 'steps'). Further actions: a request with one unresolvable name (must fail and leave no trace in later injections), a second injection and ApplyEdits into the same OCI spec object. "
+             "Non-trivial iff >= 2 injections with a host change in "
              "between on a node that needs the host; distinct = distinct histories."),
     "assumptions": ["mknod available (root); otherwise host changes are limited to FIFO / regular file / missing and the evidence says so"],
     "manifest": {
@@ -626,6 +634,7 @@ PROPS["C20"] = {
              "inflight unit: a first directory of 50..250 files keeps the watcher goroutine busy; 1..4 events are produced in it with drawn "
              "gaps of 0..3 ms and Configure(WithAutoRefresh(false)) is called at once; a Spec written into the second directory after "
              "Configure returned must not be visible 150 ms later without Refresh() and must be visible after it (F22). "
+             "Half of the checks first ask Refresh() and GetErrors() only, before any device query, and compare the file-level error keys with a new cache's. "
              "Non-trivial iff >= 3 reconfigurations including an auto switch or a directory-list change, or a shortage window (rapid); "
              ">= 2 cdi.Configure calls (defcache); distinct = distinct histories."),
     "assumptions": ["known finding F16 (partial shortage with a reusable watcher) is excluded by construction and probed separately (unit known-f16)",
